@@ -19,7 +19,7 @@ RULE = ("(a) system: restricted networks (integer servers 1-3, queue capacities 
         "'no false positive' half.  (b) unit: StateDigraph.detect_deadlock on wait-for digraphs built from generated server "
         "configurations vs the same fixpoint.  Non-trivial (a): deadlock reached after >= 1 resolved blockage; distinct by digest.")
 ASSUMPTIONS = ["deadlock is defined structurally (the property's own definition), not by waiting"]
-TECHNIQUE = 'property-based testing: simulate_until_deadlock against an independent structural fixpoint oracle after every event; unit property of detect_deadlock on generated server configurations'
+TECHNIQUE = 'property-based testing: simulate_until_deadlock and detect_deadlock (asked in every reached state) against an independent structural fixpoint oracle; two-phase runs, deadlocks at time zero, 10-12 nodes, long runs of thousands of events (storyboard generator), pre-emption; unit property of detect_deadlock on generated server configurations'
 WALL = {"quick": 150, "thorough": 540}
 
 ALLOWED = ["capacity", "priorities", "batching", "self_loops", "routing_objects", "process_routing", "discipline", "cc_after", "zero_service",
